@@ -1526,6 +1526,14 @@ def rule_W_NEW(ctx, d, parts=('dispatch', 'forward'), only=None):
                     if kw_lookup(x, kwn, p) and x[0] == 'call':
                         dflt = x[2][1] if len(x[2]) > 1 else NONE
                         ok = is_const(dflt) and dflt[1] is not None and dflt[1] != 0
+                        if not ok and dflt[0] in ('global', 'lib'):
+                            # a private marker object (`_NOTGIVEN = object()`) equals neither 0 nor None
+                            gname = dflt[1].split('.')[-1] if isinstance(dflt[1], str) else None
+                            for mod_ in [d.module] + list(getattr(d.repo, 'modules', {}).values()):
+                                cv = mod_.consts.get(gname) if gname else None
+                                if isinstance(cv, ast.Call) and isinstance(cv.func, ast.Name) and cv.func.id == 'object' and not cv.args:
+                                    ok = True
+                                    break
                         ctx.ob('W-NEW', '%s default of omitted %s' % (d.name, p), ok)
                         if not ok:
                             ctx.fail('W-NEW', new.qual, 'omitted %s read as %s' % (p, render(dflt)),
@@ -1837,6 +1845,8 @@ def rule_W_LOCAL(ctx, d):
             elif isinstance(n, (ast.Import, ast.ImportFrom)):
                 for a in n.names:
                     bound.add(a.asname or a.name.split('.')[0])
+            elif isinstance(n, (ast.FunctionDef, ast.ClassDef)) and n is not fn:
+                bound.add(n.name)      # a helper defined inside the closure (def _plain(): ...)
             elif isinstance(n, (ast.Global,)):
                 ok_all = False
                 ctx.fail('W-LOCAL', cq(d, fn.name), 'global statement', 'closure %s declares global state (%s): it is not carried by pickling the closure' % (fn.name, ','.join(n.names)), where(d, n.lineno))
